@@ -86,6 +86,7 @@ func run(c *vf.Ctx) {
 			}
 		}
 		w.staleCounts()
+		w.reusedReceiver()
 		w.parallelTwins()
 		if cmd.AndX {
 			lat := w.lat
@@ -368,6 +369,77 @@ func (w *worker) eval(a *refsmb.Assign, r *explore.Run, ax *andx.AndX) {
 		d2 := cmd.New()
 		if _, p2, _ := smbgen.Unmarshal(d2, stripped); !p2 {
 			w.decoded("-modulo-andx", label, want, d2, stripped)
+		}
+	}
+}
+
+// reusedReceiver: decoding the MS-CIFS encoding of B into a structure that has decoded the encoding of A before
+// gives what a FRESH structure gives for B - field by field, and the same verdict (a client keeps one response
+// structure per command and decodes every reply into it). A differential oracle without an expected value, so the
+// known decoder findings cannot reach it: whatever a decoder does wrong, it does it to both receivers. A is the
+// all-default and the all-non-default assignment, B is either of them and every single-field deviation from the
+// all-default one (the first two lattice values of every field). Every Unmarshal gets a buffer of its own.
+func (w *worker) reusedReceiver() {
+	cmd := w.cmd
+	type enc struct {
+		label string
+		wire  []byte
+	}
+	mk := func(a *refsmb.Assign) *enc {
+		x, err := a.Build()
+		if err != nil {
+			return nil
+		}
+		ref, err := cmd.Encode(x)
+		if err != nil {
+			return nil
+		}
+		return &enc{a.Label(), ref.Bytes()}
+	}
+	zero, full := mk(cmd.Zero(w.lat)), mk(cmd.FullAssign(w.lat))
+	var second []*enc
+	for _, e := range []*enc{zero, full} {
+		if e != nil {
+			second = append(second, e)
+		}
+	}
+	for _, f := range cmd.Fields {
+		if !f.Free() {
+			continue
+		}
+		for k := 1; k <= len(w.lat[f.Pos]) && k <= 2; k++ {
+			if e := mk(cmd.Zero(w.lat).With(f.Pos, k)); e != nil {
+				second = append(second, e)
+			}
+		}
+	}
+	for _, A := range []*enc{full, zero} {
+		if A == nil {
+			continue
+		}
+		for _, B := range second {
+			F := cmd.New()
+			ferr, fp, _ := smbgen.Unmarshal(F, append([]byte{}, B.wire...))
+			R := cmd.New()
+			if _, ap, _ := smbgen.Unmarshal(R, append([]byte{}, A.wire...)); ap {
+				continue // reported by decode-ref/panic
+			}
+			rerr, rp, rwhere := smbgen.Unmarshal(R, append([]byte{}, B.wire...))
+			if fp {
+				continue
+			}
+			w.c.Case([]byte(cmd.Name), []byte("reused-receiver "+A.label+" | "+B.label))
+			if !w.check(w.key("reused-receiver/same-verdict-as-a-fresh-receiver"), !rp && (rerr == nil) == (ferr == nil), func() string {
+				return fmt.Sprintf("%s: a receiver that decoded {%s} before decodes %s (MS-CIFS encoding of {%s}) with err=%v panic=%v %s; a fresh receiver: err=%v", cmd.Name, A.label, vf.HexS(B.wire), B.label, rerr, rp, rwhere, ferr)
+			}) || ferr != nil {
+				continue
+			}
+			for _, f := range cmd.Fields {
+				fv, rv := smbgen.Field(F, f), smbgen.Field(R, f)
+				w.check(w.key(f.Name+"/reused-receiver-decodes-like-a-fresh-receiver"), cmd.FieldEqual(f, fv, rv), func() string {
+					return fmt.Sprintf("%s: a receiver that decoded {%s} before decodes %s (MS-CIFS encoding of {%s}) to %s = %s; a fresh receiver gets %s", cmd.Name, A.label, vf.HexS(B.wire), B.label, f.Name, cmd.FieldString(f, rv), cmd.FieldString(f, fv))
+				})
+			}
 		}
 	}
 }
@@ -803,6 +875,94 @@ func typeLevel(c *vf.Ctx) {
 		c.Check(fmt.Sprintf("C05/dialects/Unmarshal/n=%d", n), !p && uerr == nil && rn == len(want) && reflect.DeepEqual(e.Dialects, names[:n]), func() string {
 			return fmt.Sprintf("Dialects.Unmarshal(%x) = %q (%d,%v %s %s), want %q", want, e.Dialects, rn, uerr, msg, where, names[:n])
 		})
+	}
+	// dialect list, histories on ONE object: every sequence of three edits (AddDialect, an entry replaced in place, a
+	// new list assigned - as long, longer, empty -, Unmarshal of another list), with Marshal called or not called
+	// after each of the first two: the last Marshal gives the MS-CIFS encoding of the list the object holds then
+	{
+		type op struct {
+			name string
+			do   func(d *dialects.Dialects, m []string) []string
+		}
+		encl := func(l []string) []byte {
+			var w []byte
+			for _, s := range l {
+				e, _ := refsmb.EncodeString(2, []byte(s))
+				w = append(w, e...)
+			}
+			return w
+		}
+		unm := func(l []string) func(d *dialects.Dialects, m []string) []string {
+			return func(d *dialects.Dialects, m []string) []string {
+				d.Unmarshal(encl(l))
+				return append([]string{}, l...)
+			}
+		}
+		asg := func(l []string) func(d *dialects.Dialects, m []string) []string {
+			return func(d *dialects.Dialects, m []string) []string {
+				d.Dialects = append([]string{}, l...)
+				return append([]string{}, l...)
+			}
+		}
+		setAt := func(last bool, v string) func(d *dialects.Dialects, m []string) []string {
+			return func(d *dialects.Dialects, m []string) []string {
+				if len(d.Dialects) == 0 || len(m) == 0 {
+					return m
+				}
+				i := 0
+				if last {
+					i = len(d.Dialects) - 1
+				}
+				d.Dialects[i] = v
+				m = append([]string{}, m...)
+				if i < len(m) {
+					m[i] = v
+				}
+				return m
+			}
+		}
+		add := func(v string) func(d *dialects.Dialects, m []string) []string {
+			return func(d *dialects.Dialects, m []string) []string { d.AddDialect(v); return append(append([]string{}, m...), v) }
+		}
+		ops := []op{
+			{"AddDialect(LANMAN1.0)", add("LANMAN1.0")}, {"AddDialect(NT LM 0.12)", add("NT LM 0.12")},
+			{"Dialects[0]=LM1.2X002", setAt(false, "LM1.2X002")}, {"Dialects[last]=Samba", setAt(true, "Samba")},
+			{"Dialects=[DOS LM1.2X002,LANMAN2.1]", asg([]string{"DOS LM1.2X002", "LANMAN2.1"})}, {"Dialects=[]", asg(nil)},
+			{"Dialects=[a,b,c]", asg([]string{"a", "b", "c"})},
+			{"Unmarshal([PC NETWORK PROGRAM 1.0])", unm([]string{"PC NETWORK PROGRAM 1.0"})}, {"Unmarshal([x,y,z])", unm([]string{"x", "y", "z"})},
+		}
+		n := 0
+		for a := range ops {
+			for b := range ops {
+				for e := range ops {
+					for obs := 0; obs < 4; obs++ {
+						d := dialects.NewDialects()
+						var m []string
+						var hist []string
+						var out []byte
+						var err error
+						p, msg, where := vf.Try(func() {
+							for i, o := range []op{ops[a], ops[b], ops[e]} {
+								m = o.do(d, m)
+								hist = append(hist, o.name)
+								if i < 2 && obs&(1<<i) != 0 {
+									d.Marshal()
+									hist = append(hist, "Marshal")
+								}
+							}
+							out, err = d.Marshal()
+						})
+						n++
+						c.Case([]byte("dialects.hist"), []byte{byte(a), byte(b), byte(e), byte(obs)})
+						want := encl(m)
+						c.Check("C05/dialects/history/Marshal-encodes-the-list-the-object-holds-now", !p && err == nil && bytes.Equal(out, want) && reflect.DeepEqual(append([]string{}, d.Dialects...), append([]string{}, m...)), func() string {
+							return fmt.Sprintf("one Dialects object, history %v, then Marshal() = %x (%v %s %s); the object holds %q, whose MS-CIFS encoding is %x", hist, out, err, msg, where, d.Dialects, want)
+						})
+					}
+				}
+			}
+		}
+		c.Set("dialect_histories", n)
 	}
 	// SMB_DIRECTORY_INFORMATION: FileName is a FIXED-WIDTH field (12 OEM bytes, space padded): whatever name is
 	// accepted, the entry has the size of every other entry and carries the name's bytes followed by spaces at the
